@@ -222,6 +222,14 @@ void run_sweep(Stats& st) {
 		fs[1].name = "Tail.txt"; fs[1].content = {1, 2, 3};
 		Tape t(tp); success_case(t, st, fs, false);
 	}
+	// members that END in (or consist of) a long block of one byte value - zeros above all: silence, padding, sparse data - as the last member
+	// with a size that is a multiple of four (nothing follows it in the archive) and elsewhere
+	for (unsigned v = 0; v < 8; ++v) { if (!sw("block_of_one_value", v)) continue;
+		std::vector<InFile> fs(3); fs[0].name = "a_first.bin"; fs[1].name = "m_mid.bin"; fs[2].name = "z_last.bin"; fs[1].dir = "%d0/";
+		for (auto& f : fs) { f.content.resize(40); for (size_t k = 0; k < 40; ++k) f.content[k] = uint8_t(k * 7 + 1); }
+		size_t which = v & 1 ? 1 : 2; uint8_t val = v & 2 ? 0xFF : 0x00; size_t head = v & 4 ? 5000 : 0, run = v & 4 ? 8192 : 4096 + 4 * (v & 3);
+		fs[which].content.assign(head + run, val); for (size_t k = 0; k < head; ++k) fs[which].content[k] = uint8_t(k * 13 + 5);
+		for (int r = 0; r < 2; ++r) { tp[0] = uint8_t(r * 3); Tape t(tp); success_case(t, st, fs, false); } }
 	// zero-length members: alone, first, middle, last (block header ends exactly at end of file), two in a row
 	for (unsigned mask = 1; mask < 16; ++mask) {
 		if (!sw("zero_length", mask)) continue;
